@@ -1146,6 +1146,55 @@ def np_round(eng, st, args, kwargs):
     yield map1(eng, st, args[0], rnd, 'real'), st
 
 
+@lib('numpy.argmax', 'numpy.argmin')
+def np_argmax(eng, st, args, kwargs, _name=None):
+    """np.argmax(a) / np.argmin(a) of a 1-D array: the FIRST position of the largest / smallest cell (booleans count as 0 / 1); ValueError when empty"""
+    raise OutOfSubset('np.argmax / np.argmin through the shared entry')
+
+
+def _arg_extremum(name):
+    def f(eng, st, args, kwargs):
+        a = arr_of(eng, st, args[0])
+        if a is None or a.ndim != 1 or kwargs or len(args) != 1:
+            raise OutOfSubset('np.%s outside the 1-D form' % name)
+        num = lambda x: to_num(x) if not is_bool_like(x) else ite(x, 1, 0)
+        better = (lambda x, y: lt(y, x)) if name == 'argmax' else (lambda x, y: lt(x, y))      # x strictly better than y
+        n = a.shape[0]
+        if isinstance(n, int):
+            if n == 0:
+                yield Raised('ValueError'), st
+                return
+            k = 0
+            best = num(a.at(0))
+            for t in range(1, n):
+                c = better(num(a.at(t)), best)
+                k = ite(c, t, k)
+                best = ite(c, num(a.at(t)), best)
+            yield k, st
+            return
+        st_e = st.fork()
+        if eng.feasible(st, eq(n, 0)):
+            st_e.assume(eq(n, 0))
+            yield Raised('ValueError'), st_e
+        st.assume(lt(0, n))
+        if not eng.feasible(st):
+            return
+        k = z3.Int(fresh_name(name))
+        j = z3.Int(fresh_name('j'))
+        ck = to_z3(num(a.at(k)))
+        cj = to_z3(num(a.at(j)))
+        st.assume(and_(0 <= k, k < to_z3(n)))
+        st.assume(z3.ForAll([j], z3.Implies(z3.And(0 <= j, j < to_z3(n)), z3.Not(to_z3(better(num(a.at(j)), num(a.at(k))))))))
+        st.assume(z3.ForAll([j], z3.Implies(z3.And(0 <= j, j < k), to_z3(better(num(a.at(k)), num(a.at(j)))))))
+        eng.trusted_facts.add('np.%s(a): first position of the extreme cell (library fact, trusted)' % name)
+        yield k, st
+    return f
+
+
+LIB['numpy.argmax'] = _arg_extremum('argmax')
+LIB['numpy.argmin'] = _arg_extremum('argmin')
+
+
 @lib('numpy.isclose')
 def np_isclose(eng, st, args, kwargs):
     """np.isclose(a, b, rtol=1e-05, atol=1e-08) on finite scalars: |a - b| <= atol + rtol * |b| (arrays / equal_nan are outside the model)"""
